@@ -1004,3 +1004,13 @@ package genql
 //@   at-call FixIdiomaticArray assert the-array-rewrite-reads-what-the-quote-rewrite-left[C17]: (called(DoubleQuotesToBackTick) ==> arg0 == callresult(DoubleQuotesToBackTick, 0)) && (!called(DoubleQuotesToBackTick) ==> arg0 == query)
 //@   at-call Parse assert the-parser-reads-what-the-rewrites-left[C17]: (called(FixIdiomaticArray) ==> arg0 == callresult(FixIdiomaticArray, 0)) && (!called(FixIdiomaticArray) && called(DoubleQuotesToBackTick) ==> arg0 == callresult(DoubleQuotesToBackTick, 0)) && (!called(FixIdiomaticArray) && !called(DoubleQuotesToBackTick) ==> arg0 == query)
 //@   at-call Parse assert an-option-that-is-set-is-applied[C17]: (q.options.postgresEscapingDialect ==> called(DoubleQuotesToBackTick)) && (q.options.idomaticArrays ==> called(FixIdiomaticArray))
+
+// C06: the identity under which DISTINCT (and UNION) tells rows apart is the whole row, printed with its types
+//@ func ExecDistinct
+//@   at-call Sprintf assert the-identity-of-a-row-is-the-whole-row-with-its-types[C06]: arg0 == "%#v" && varargs == 1 && vararg0 == rangevalue
+
+// C04: the text that enters the key is the printed value, with one text for the two zeros (-0 = 0 holds, so they are one key)
+//@ func ToCatalog
+//@   at-call WriteString:String(text) assert the-key-text-is-the-printed-value-with-one-text-for-both-zeros[C04]:
+//@     | (typeis(callresult(ExecReader, 0), float64) && callresult(ExecReader, 0).(float64) <= 0 && callresult(ExecReader, 0).(float64) >= 0 ==> arg1 == "0") &&
+//@     | (!(typeis(callresult(ExecReader, 0), float64) && callresult(ExecReader, 0).(float64) <= 0 && callresult(ExecReader, 0).(float64) >= 0) ==> arg1 == callresult(Sprintf, 0, 1))
